@@ -292,6 +292,67 @@ class Mir:
         tr, _, me = re.sub(r'::<[^>]*>', '', c).rpartition('::')
         return self.trait_impls().get((tr, me), [])
 
+    def impls_by_type(self):
+        """type (as printed in impl names) -> bodies `<T as Trait>::m` for traits that are not the crate's own"""
+        if getattr(self, '_ibt', None) is None:
+            import re
+            d = {}
+            for n in self.bodies:
+                m = re.match(r'^<(.+) as ([^<>]+?)(<.*>)?>::(\w+)$', n)
+                if m and '::' in m.group(2):
+                    ty = re.sub(r"<.*$", '', m.group(1))           # `Summary<'_>` -> `Summary`
+                    d.setdefault(ty, []).append(n)
+            self._ibt = {k: (re.compile(r'(?<![\w:])' + re.escape(k) + r'(?![\w])'), sorted(v)) for k, v in d.items()}
+        return self._ibt
+
+    def generic_candidates(self, t):
+        """library code instantiated with a crate type runs that type's trait implementations (Iterator::next under `collect`, Ord::cmp under `sort`,
+        Clone under `cloned`, Hash / Eq under a map, Extend, FromIterator, ..): a call of a function that is not the crate's own whose generic arguments
+        mention the type may call every implementation of a non-crate trait for it (an over-approximation)"""
+        if self.callee_of(t) in self.bodies:
+            return []
+        g = (t.get('generics') or '') + ' ' + (t.get('self_ty') or '')
+        if not g.strip():
+            return []
+        out = []
+        for ty, (rx, fns) in self.impls_by_type().items():
+            if rx.search(g):
+                out.extend(fns)
+        return out
+
+    def drop_candidates(self, body, t):
+        """a `drop` of a place whose type mentions a crate type with a Drop impl runs it"""
+        ty = body.locals[t['place']['l']] if isinstance(t.get('place'), dict) and 'l' in t['place'] else ''
+        out = []
+        for ty_, (rx, fns) in self.impls_by_type().items():
+            if rx.search(ty):
+                out.extend(f for f in fns if ' as std::ops::Drop>::drop' in f)
+        return out
+
+    @staticmethod
+    def _sig_norm(s):
+        import re
+        s = re.sub(r"for<[^>]*>\s*", '', s)
+        s = re.sub(r"'\w+\s*|'\{erased\}\s*", '', s)
+        s = re.sub(r"\b(unsafe |extern \"[^\"]*\" )", '', s)
+        return s.replace(' ', '')
+
+    def indirect_candidates(self, t):
+        """a call through a function pointer: every function of the crate with that signature may be the target (its address may have been taken in a
+        constant or static initialiser, which has no body in the facts)"""
+        raw = t.get('raw') or ''
+        if not t.get('indirect') or not raw.startswith('<indirect:'):
+            return []
+        want = self._sig_norm(raw[len('<indirect:'):-1])
+        if getattr(self, '_sigs', None) is None:
+            self._sigs = {}
+            for n, b in self.bodies.items():
+                if b.kind in ('Fn', 'AssocFn'):
+                    ret = b.locals[0]
+                    sig = 'fn(' + ','.join(b.locals[1:1 + b.arg_count]) + ')' + ('' if ret == '()' else '->' + ret)
+                    self._sigs.setdefault(self._sig_norm(sig), []).append(n)
+        return self._sigs.get(want, [])
+
     def call_graph(self):
         """edges between crate bodies: direct resolved calls, plus closure creation (a closure is attributed
         to the body that creates it: it may be called by whatever the creator hands it to)"""
@@ -304,11 +365,15 @@ class Mir:
                         g[n].add(c)
                     else:
                         g[n].update(self.dyn_candidates(t, fmt=True))
+                        g[n].update(self.generic_candidates(t))
+                        g[n].update(self.indirect_candidates(t))
                     # function items / closures passed as values
                     for o in t['args']:
                         if 'fn' in o and o['fn'] in self.bodies:
                             g[n].add(o['fn'])
                 for blk in b.blocks:
+                    if blk['term']['k'] == 'drop':
+                        g[n].update(self.drop_candidates(b, blk['term']))
                     for st in blk['stmts']:
                         rv = st['rv']
                         if rv.get('rk') == 'aggregate' and rv['agg'].startswith('closure:'):
